@@ -125,7 +125,7 @@ impl Prop for C09 {
     }
 
     fn cases(tier: Tier) -> u64 {
-        tier.pick(60_000, 2_000_000)
+        tier.pick(300_000, 3_000_000)
     }
 
     fn enumerate(_tier: Tier) -> Vec<Case> {
